@@ -36,11 +36,13 @@ VARIABLES l,             \* next event
           run,           \* id of the current recorded run (from the last "reset" event)
           meta,          \* target name -> [orig, fmt]
           dir, data, fds, nino,
+          sym,           \* symlink inode -> name it points to (fixed by "reset"; a symlink is a directory entry of its own)
+          roino, rodirs, \* inodes without write permission / directories without write permission (fixed by "reset")
           hist, dirs,    \* power-loss bookkeeping
           alive,         \* the process of the current run exists
           mode,          \* "run" | "crashed" | "failed"
           fault          \* the fault that ended this behaviour (terminal states only)
-vars == <<l, run, meta, dir, data, fds, nino, hist, dirs, alive, mode, fault>>
+vars == <<l, run, meta, dir, data, fds, nino, sym, roino, rodirs, hist, dirs, alive, mode, fault>>
 
 Empty == [x \in {} |-> 0]
 Missing == <<-1>>
@@ -48,13 +50,15 @@ NoFault == [kind |-> "none", at |-> 0, k |-> 0]
 Range(s) == {s[i] : i \in DOMAIN s}
 Drop(f, x) == [y \in (DOMAIN f) \ {x} |-> f[y]]
 
-ContentOf(d, dt, n) == IF n \in DOMAIN d THEN dt[d[n]] ELSE Missing
+\* path resolution: a name whose entry is a symlink stands for the name the link points to (one level)
+Res(d, n) == IF n \in DOMAIN d /\ d[n] \in DOMAIN sym THEN sym[d[n]] ELSE n
+ContentOf(d, dt, n) == IF Res(d, n) \in DOMAIN d THEN dt[d[Res(d, n)]] ELSE Missing
 Good(t, c) == c = meta[t].orig \/ c = meta[t].fmt
 
 KillOk == \A t \in DOMAIN meta : Good(t, ContentOf(dir, data, t))
 PowerOk == \A d \in dirs : \A t \in DOMAIN meta :
-              /\ t \in DOMAIN d
-              /\ \A c \in hist[d[t]] : Good(t, c)
+              /\ Res(d, t) \in DOMAIN d
+              /\ \A c \in hist[d[Res(d, t)]] : Good(t, c)
 
 \* ----------------------------------------------------------------------------------------------
 \* file operations (each an action over dir, data, fds, nino, hist, dirs)
@@ -63,17 +67,24 @@ Pad(c, n) == IF n > Len(c) THEN c \o [x \in 1..(n - Len(c)) |-> 0] ELSE c
 Splice(c, off, w) == LET p == Pad(c, off) IN
                      SubSeq(p, 1, off) \o w \o SubSeq(p, off + Len(w) + 1, Len(p))
 
-OpenSucceeds(e) == IF e.name \in DOMAIN dir THEN ~(e.creat /\ e.excl) ELSE e.creat
+\* O_CREAT|O_EXCL does not follow a symlink; every other open does.  An existing file opens unless O_EXCL was
+\* asked for or write access is asked for on an inode without write permission; a new name needs O_CREAT and
+\* a writable directory (e.dir = the directory of e.name, supplied by the recorder).
+OpenName(e) == IF e.creat /\ e.excl THEN e.name ELSE Res(dir, e.name)
+OpenSucceeds(e) == IF OpenName(e) \in DOMAIN dir
+                   THEN ~(e.creat /\ e.excl) /\ ~(e.wr /\ dir[OpenName(e)] \in roino)
+                   ELSE e.creat /\ e.dir \notin rodirs
 
 DoOpen(e) ==
   /\ e.ok = OpenSucceeds(e)                       \* the model must predict success / failure
   /\ IF e.ok
-     THEN LET exists == e.name \in DOMAIN dir
-              i  == IF exists THEN dir[e.name] ELSE nino
+     THEN LET name == OpenName(e)
+              exists == name \in DOMAIN dir
+              i  == IF exists THEN dir[name] ELSE nino
               c0 == IF exists THEN data[i] ELSE <<>>
               c  == IF e.trunc /\ e.wr THEN <<>> ELSE c0
               h0 == IF exists THEN hist[i] ELSE {}
-          IN /\ dir'  = IF exists THEN dir ELSE (e.name :> i) @@ dir
+          IN /\ dir'  = IF exists THEN dir ELSE (name :> i) @@ dir
              /\ data' = (i :> c) @@ data
              /\ hist' = (i :> (h0 \cup {c})) @@ hist
              /\ nino' = IF exists THEN nino ELSE nino + 1
@@ -114,20 +125,22 @@ DoFtruncate(e) ==
   /\ UNCHANGED <<dir, fds, nino, dirs>>
 
 DoRename(e) ==
-  /\ e.ok = (e.from \in DOMAIN dir)
+  /\ e.ok = (e.from \in DOMAIN dir /\ e.fromdir \notin rodirs /\ e.todir \notin rodirs)   \* acts on the entries themselves
   /\ IF e.ok THEN /\ dir' = (e.to :> dir[e.from]) @@ Drop(dir, e.from)
                   /\ dirs' = dirs \cup {dir'}
              ELSE UNCHANGED <<dir, dirs>>
   /\ UNCHANGED <<data, hist, fds, nino>>
 
 DoUnlink(e) ==
-  /\ e.ok = (e.name \in DOMAIN dir)
+  /\ e.ok = (e.name \in DOMAIN dir /\ e.dir \notin rodirs)
   /\ IF e.ok THEN /\ dir' = Drop(dir, e.name)
                   /\ dirs' = dirs \cup {dir'}
              ELSE UNCHANGED <<dir, dirs>>
   /\ UNCHANGED <<data, hist, fds, nino>>
 
-\* a new recorded run: fresh file system holding the listed files (long since durable)
+\* a new recorded run: fresh file system holding the listed files (long since durable).  files[j].ino is the index
+\* of the entry that owns the inode (j itself, or the first name of a set of hard links); files[j].link # "" makes
+\* the entry a symlink to that name; files[j].ro: no write permission on the inode; e.rodirs: read-only directories.
 DoReset(e) ==
   LET fs == Range(e.files)
       names == {f.name : f \in fs}
@@ -135,7 +148,10 @@ DoReset(e) ==
   IN /\ run'  = e.run
      /\ meta' = [n \in {f.name : f \in {g \in fs : g.target}} |->
                    [orig |-> e.files[idx(n)].orig, fmt |-> e.files[idx(n)].fmt]]
-     /\ dir'  = [n \in names |-> idx(n)]
+     /\ dir'  = [n \in names |-> e.files[idx(n)].ino]
+     /\ sym'  = [j \in {k \in DOMAIN e.files : e.files[k].link # ""} |-> e.files[j].link]
+     /\ roino' = {e.files[j].ino : j \in {k \in DOMAIN e.files : e.files[k].ro}}
+     /\ rodirs' = Range(e.rodirs)
      /\ data' = [j \in DOMAIN e.files |-> e.files[j].orig]
      /\ hist' = [j \in DOMAIN e.files |-> {e.files[j].orig}]
      /\ dirs' = {dir'}
@@ -146,27 +162,31 @@ DoReset(e) ==
 \* what was read back from the real directory after the run: the model must explain it exactly
 DoObserve(e) ==
   /\ {f.name : f \in Range(e.files)} = DOMAIN dir
-  /\ \A f \in Range(e.files) : data[dir[f.name]] = f.content
+  /\ \A f \in Range(e.files) :
+        IF f.link # "" THEN dir[f.name] \in DOMAIN sym /\ sym[dir[f.name]] = f.link
+                       ELSE dir[f.name] \notin DOMAIN sym /\ data[dir[f.name]] = f.content
+  \* the hard-link structure: two names share an inode on disk iff they do in the model
+  /\ \A f, g \in Range(e.files) : (f.ino = g.ino) <=> (dir[f.name] = dir[g.name])
   /\ UNCHANGED <<dir, data, hist, nino, fds, dirs>>
 
 Apply(e) ==
   CASE e.op = "reset"     -> DoReset(e)
-    [] e.op = "open"      -> DoOpen(e)      /\ UNCHANGED <<run, meta, alive>>
-    [] e.op = "write"     -> DoWrite(e)     /\ UNCHANGED <<run, meta, alive>>
-    [] e.op = "close"     -> DoClose(e)     /\ UNCHANGED <<run, meta, alive>>
-    [] e.op = "fsync"     -> DoFsync(e)     /\ UNCHANGED <<run, meta, alive>>
-    [] e.op = "ftruncate" -> DoFtruncate(e) /\ UNCHANGED <<run, meta, alive>>
-    [] e.op = "rename"    -> DoRename(e)    /\ UNCHANGED <<run, meta, alive>>
-    [] e.op = "unlink"    -> DoUnlink(e)    /\ UNCHANGED <<run, meta, alive>>
-    [] e.op = "observe"   -> DoObserve(e)   /\ UNCHANGED <<run, meta, alive>>
+    [] e.op = "open"      -> DoOpen(e)      /\ UNCHANGED <<run, meta, alive, sym, roino, rodirs>>
+    [] e.op = "write"     -> DoWrite(e)     /\ UNCHANGED <<run, meta, alive, sym, roino, rodirs>>
+    [] e.op = "close"     -> DoClose(e)     /\ UNCHANGED <<run, meta, alive, sym, roino, rodirs>>
+    [] e.op = "fsync"     -> DoFsync(e)     /\ UNCHANGED <<run, meta, alive, sym, roino, rodirs>>
+    [] e.op = "ftruncate" -> DoFtruncate(e) /\ UNCHANGED <<run, meta, alive, sym, roino, rodirs>>
+    [] e.op = "rename"    -> DoRename(e)    /\ UNCHANGED <<run, meta, alive, sym, roino, rodirs>>
+    [] e.op = "unlink"    -> DoUnlink(e)    /\ UNCHANGED <<run, meta, alive, sym, roino, rodirs>>
+    [] e.op = "observe"   -> DoObserve(e)   /\ UNCHANGED <<run, meta, alive, sym, roino, rodirs>>
     [] e.op = "exit"      -> /\ fds' = Empty /\ alive' = FALSE     \* exit or death: descriptors go away
-                             /\ UNCHANGED <<run, meta, dir, data, hist, nino, dirs>>
+                             /\ UNCHANGED <<run, meta, dir, data, hist, nino, dirs, sym, roino, rodirs>>
 
 \* ----------------------------------------------------------------------------------------------
 \* behaviours
 \* ----------------------------------------------------------------------------------------------
 Init == /\ l = 1 /\ run = 0 /\ meta = Empty /\ dir = Empty /\ data = Empty /\ fds = Empty
-        /\ nino = 1 /\ hist = Empty /\ dirs = {} /\ alive = FALSE /\ mode = "run" /\ fault = NoFault
+        /\ nino = 1 /\ sym = Empty /\ roino = {} /\ rodirs = {} /\ hist = Empty /\ dirs = {} /\ alive = FALSE /\ mode = "run" /\ fault = NoFault
 
 Step == /\ mode = "run" /\ l <= Len(Script)
         /\ Apply(Script[l])
@@ -178,7 +198,7 @@ Kill == /\ mode = "run" /\ alive /\ l <= Len(Script)
         /\ Script[l].op \notin {"reset", "observe", "exit"}
         /\ mode' = "crashed" /\ fault' = [kind |-> "kill", at |-> l, k |-> 0]
         /\ fds' = Empty /\ alive' = FALSE
-        /\ UNCHANGED <<l, run, meta, dir, data, nino, hist, dirs>>
+        /\ UNCHANGED <<l, run, meta, dir, data, nino, hist, dirs, sym, roino, rodirs>>
 
 \* a write that transferred n units in the recording transfers only k < n, then death or error
 WriteFault(kind) ==
@@ -190,7 +210,7 @@ WriteFault(kind) ==
         /\ fault' = [kind |-> kind, at |-> l, k |-> k]
   /\ mode' = IF kind = "killw" THEN "crashed" ELSE "failed"
   /\ alive' = (kind # "killw")
-  /\ UNCHANGED <<l, run, meta>>
+  /\ UNCHANGED <<l, run, meta, sym, roino, rodirs>>
 
 Next == Step \/ Kill \/ WriteFault("killw") \/ WriteFault("wfail")
 Spec == Init /\ [][Next]_vars
